@@ -245,6 +245,11 @@ func runC10Write(c *Ctx) {
 						continue
 					}
 				}
+				if s.how == "store" && info.protected == "" && storeIntoOwnAppendedTail(s.target) {
+					// x[len(x)-1] = … just after this function appended to x: like the append
+					// itself, a write beyond what the caller sees of its slice
+					continue
+				}
 				final = append(final, verdict{s, f, info})
 				if info.onlyFresh() || info.protected != "" {
 					continue
